@@ -119,11 +119,12 @@ func TestVerif(t *testing.T) {
 	// coverage floors: a stream that produced nothing is a broken check, not a pass
 	floors := map[string]int{"A/apply/": 1000, "A/remove-empty": 50, "A/filter": 50, "T/tag": 50, "K/caps": 5, "M/callers=": 100, "S/stress": 20,
 		"E/ops=": 100, "X/projected": 100, "Y/liveness": 80, "L/listing": 100, "D/decoration": 50, "E/same-manifest-overlap": 5,
-		"E/fault/idx-": 20, "E/outcome=idxdel": 3, "E/outcome=err": 10, "E/skipgc": 10, "E/subjects=2": 5, "E/subjects=3": 5}
+		"E/fault/idx-": 20, "E/outcome=idxdel": 3, "E/outcome=err": 10, "E/skipgc": 10, "E/subjects=2": 5, "E/subjects=3": 5,
+		"E/fault/idx-put/lost": 30} // lost responses are model events (EPutLost): the projected lines are judged
 	if run.Thorough() {
 		floors["E/shared-index-drop"] = 20
 		floors["E/fault/man-"] = 20
-		floors["E/fault/idx-put/lost"] = 20
+		floors["E/fault/idx-put/lost"] = 200
 		floors["E/fault/idx-del/404"] = 20
 	}
 	for prefix, min := range floors {
@@ -409,7 +410,7 @@ func xLine(c *E2ECase, res *E2EResult, s int) (string, string, bool) {
 			f = 1
 		}
 		if e.Kind == "lost" {
-			f = 2 // took effect but answered 500: outside the model's fault assumption, line not judged
+			f = 2 // the index PUT took effect but was answered 500: EPutLost of the model (callers get the plain error, the index changed, the old index stays)
 		}
 		switch e.Class {
 		case "man-put", "man-get":
@@ -538,7 +539,7 @@ func typeID(t string) int {
 // yLine projects an end-to-end run onto one subject WITH the manifest exchanges: the model
 // (Model/Live.v, operations on one manifest do not overlap) predicts which referrer manifests
 // are live; compared with the registry store.  Manifests touched by a failed operation (Z) are
-// not judged; runs with same-manifest overlap or a lost response are not projected.
+// not judged; runs with same-manifest overlap are not projected.
 func yLine(c *E2ECase, res *E2EResult, s int) (string, string, bool) {
 	local := map[int]int{}
 	var specs []string
@@ -579,12 +580,12 @@ func yLine(c *E2ECase, res *E2EResult, s int) (string, string, bool) {
 			}
 			continue
 		}
-		if e.Kind == "lost" {
-			return "", "", false
-		}
 		f := 0
 		if e.Fail {
 			f = 1
+		}
+		if e.Kind == "lost" {
+			f = 2 // the index PUT took effect but was answered 500: EPutLost of the model
 		}
 		o := opByID(c, e.Op)
 		switch e.Class {
